@@ -93,3 +93,54 @@ func VP_C07_live_takeover() {
 		vpAssert(len(third.out) == 0, "further-legacy-connection-receives-nothing-of-the-live-tunnel")
 	}
 }
+
+//vp:property C01 C07
+//vp:bounds legacy transport: RDG_OUT_DATA, then an RDG_IN_DATA request whose client is slow to send its first bytes; while the gateway waits for them (Drain) or for the first / second packet, a SECOND RDG_IN_DATA request with the same connection id arrives and sends a complete set-up sequence; then the first connection sends its complete set-up sequence too
+//vp:assume one cooperative schedule per arrival point; hosts reachable
+//vp:reach ended
+func VP_C01_legacy_second_in() {
+	vpResetHandlers()
+	g := &Gateway{}
+	id := vpUser()
+	mk := func(method string) *http.Request {
+		r := &http.Request{Method: method, Header: http.Header{"Rdg-Connection-Id": {"conn-1"}}}
+		return identity.AddToRequestCtx(id, r)
+	}
+	vpAssume(!vpBool("dialfail1"))
+	vpAssume(!vpBool("dialfail2"))
+	out, in1, in2 := &vpTransport{}, vpScript(4, 0), vpScript(4, 0)
+	at := vpIntRange("second-in-arrives-at", -1, 1) // -1: while the first waits for its first bytes; 0/1: before its first/second packet
+	served := false
+	second := func() {
+		if !served {
+			served = true
+			g.HandleGatewayProtocol(&vpHTTPW{hdr: http.Header{}, tr: in2}, mk(MethodRDGIN))
+		}
+	}
+	if at == -1 {
+		in1.onDrain = second
+	}
+	inner := in1.gen
+	in1.gen = func(i int) []byte {
+		if i == at {
+			second()
+		}
+		return inner(i)
+	}
+	g.HandleGatewayProtocol(&vpHTTPW{hdr: http.Header{}, tr: out}, mk(MethodRDGOUT))
+	g.HandleGatewayProtocol(&vpHTTPW{hdr: http.Header{}, tr: in1}, mk(MethodRDGIN))
+	vpDropTasks()
+	vpReach("ended")
+	vpObserve("dials", uint64(len(vpDialLog)))
+	vpObserve("answers", uint64(len(out.out)))
+	// one tunnel: one sequence answered, one connection to a host
+	vpAssert(len(vpDialLog) <= 1, "at-most-one-dial-per-tunnel-with-two-inbound-connections")
+	nOK := 0
+	for _, p := range out.out {
+		if len(p) >= 2 && p[0] != 0xA {
+			nOK++
+		}
+	}
+	vpAssert(nOK <= 4, "only-one-inbound-connections-sequence-is-answered")
+	vpAssert(in1.pos == 0 || in2.pos == 0, "only-one-inbound-connection-is-read-from")
+}
